@@ -44,7 +44,16 @@ META = {
         "operations compute the map with dimension p bound to operand p and symbol q to operand num_dims+q, "
         "and that a well-formed map is never refused; the emitted operation list of the real pass is compared "
         "with the model's for every (num_dims, num_symbols) ≤ (3, 3) and evaluated against a direct evaluation "
-        "of the map."
+        "of the map. frontend-desymrefy: besides random symref programs (symbol uses nested down to four region levels, "
+        "declarations in nested blocks, undeclared symbols) an enumerated family touches one symbol d = 0…4 region levels "
+        "below the block that declares it (every chain of scf.if-then / scf.if-else / scf.if without else / scf.for carriers "
+        "× write / read / read-modify-write × what the declaring block does afterwards × declaration in the function body / "
+        "in a loop body / none); a refusal (FrontendProgramException) is a legitimate outcome, an accepted program must behave "
+        "like its source. XdslModel/Loops.lean models get_symbols / get_nested_symbols / the refusal of prune_definitions on "
+        "operation trees (SymTree); XdslProofs/C16Lowering.lean proves that the nested-symbol set contains a symbol iff a "
+        "symref operation on it lies at ANY depth ≥ 1 below the block, hence a symbol a block forwards (or a block that is "
+        "accepted) has no access at any depth below — the scope hypothesis of the straight-line forwarding theorem; the "
+        "real functions are compared with the model on every block of these programs."
     ),
     "technique": "translation validation on a Lean reference interpreter + Lean 4 proofs of the loop-arithmetic cores + differential correspondence of the cores with the real passes",
     "level_note": (
@@ -73,7 +82,9 @@ META = {
         "pure ops incl. divisions; pure scf.if; counting scf.while; affine programs (affine.apply maps of every shape up to 3 dims + 3 symbols); "
         "operand-binding programs (one affine.apply whose map gives every dimension/symbol its own weight, operands a permutation of "
         "distinct-valued arguments; affine.load/store through index-permuting two-result maps on a non-square memref); symref programs "
-        "(straight-line and nested; nested also with symbols that have no declaration in the program)."
+        "(straight-line and nested to depth ≤ 4; nested also with symbols that have no declaration in the program or declared in a nested block); "
+        "the enumerated symref depth family (carrier chains of length ≤ 2 in quick, ≤ 3 in thorough, sampled up to 4; histogram symref.<declared|undeclared>.span<d>.<accepted|rejected>). "
+        "Model lines `symtree`: one per distinct block shape (non-trivial = an operation with regions inside an operation with regions)."
     ),
     "trusted_base": [
         "reference semantics lean/XdslModel/Sem.lean (+ MiniIR parser) and serialiser harness/vp/miniir.py",
@@ -219,6 +230,7 @@ class Batch:
             return
         ctx = self.ctx
         outs = ctx.model("sem", self.lines)
+        pending: list[tuple[Any, ...]] = []
         for prog, passes, vecs, start, family, changed in self.items:
             n = len(vecs)
             if outs[start] != "ok" or outs[start + n + 1] != "ok":
@@ -240,8 +252,9 @@ class Batch:
                 kind = verdict(src, tgt)
                 if kind is None:
                     continue
-                report(ctx, prog, passes, vec, kind, src, tgt)
+                pending.append((prog, passes, vec, kind, src, tgt))
         self.lines, self.items = [], []
+        report_many(ctx, pending)
 
 
 _reported: dict[tuple[str, str], int] = {}
@@ -298,6 +311,81 @@ def eval_candidates(cands: list[str], passes: tuple[str, ...], arg_types: list[s
         else:
             res.append(verdict(outs[p + 1], outs[p + 3]))
     return res
+
+
+def eval_jobs(jobs: list[tuple[str, tuple[str, ...], list[str], list[Any]]], mode: str = "plain") -> list[tuple[str | None, str, str]]:
+    """(verdict kind or None, source line, target line) of every job (program text, passes, argument types,
+    input) with ONE driver call.  mode "plain" = check_one; "wide" = `index` 128 bits wide (only_wraparound);
+    "floormod" = every arith.remsi of the target read as the affine remainder (only_mod_lowering)."""
+    lines: list[str] = []
+    pos: list[int | None] = []
+    ser: dict[tuple[str, tuple[str, ...]], tuple[str, str] | None] = {}
+    for text, passes, arg_types, vec in jobs:
+        key = (text, passes)
+        if key not in ser:
+            try:
+                m, xctx = proggen.parse_module_ctx(text)
+                s1 = miniir.serialize(m)
+                m2 = apply_passes(m, xctx, passes, cpu_s=5.0)
+                if mode == "plain":
+                    m2.verify()
+                s2 = miniir.serialize(m2)
+                if mode == "floormod":
+                    if "arith.remsi" in text:
+                        raise ValueError("source has its own remsi")
+                    s2 = s2.replace('"arith.remsi"', '"c16.floormodsi"')
+                ser[key] = (s1, s2)
+            except Exception:  # noqa: BLE001
+                ser[key] = None
+        if ser[key] is None:
+            pos.append(None)
+            continue
+        s1, s2 = ser[key]  # type: ignore[misc]
+        rl = run_lines(arg_types, [vec])[0]
+        four = ["prog " + s1, rl, "prog " + s2, rl]
+        if mode == "wide":
+            four = [widen(l) for l in four]
+        pos.append(len(lines))
+        lines += four
+    outs = core.run_model("sem", lines) if lines else []
+    res: list[tuple[str | None, str, str]] = []
+    for p in pos:
+        if p is None or outs[p] != "ok" or outs[p + 2] != "ok":
+            res.append((None, "", ""))
+        else:
+            res.append((verdict(outs[p + 1], outs[p + 3]), outs[p + 1], outs[p + 3]))
+    return res
+
+
+def report_many(ctx: core.Ctx, pending: list[tuple[Any, ...]]) -> None:
+    """`report` for every disagreement of a batch; the auxiliary runs that attribute a pipeline failure to
+    one pass and that recognise the two listed arithmetic causes (64-bit wrap-around of folded bounds, mod
+    lowered to remsi) are made for the whole batch at once (three driver calls instead of up to four per
+    disagreement: the listed findings recur in every batch and must not use up the exploration budget)."""
+    if not pending:
+        return
+    items = [list(it) for it in pending]
+    # 1. a pipeline failure belongs to a single pass (alone on the source) or to its first failing prefix
+    jobs, owner = [], []
+    for n, (prog, passes, vec, *_rest) in enumerate(items):
+        if len(passes) > 1:
+            for cand in [(p,) for p in passes] + [passes[:k] for k in range(2, len(passes))]:
+                jobs.append((prog["text"], cand, prog["arg_types"], vec))
+                owner.append(n)
+    done: set[int] = set()
+    for (job, n), (k, s_, t_) in zip(zip(jobs, owner), eval_jobs(jobs)):
+        if k is not None and n not in done:
+            done.add(n)
+            items[n][1], items[n][3], items[n][4], items[n][5] = job[1], k, s_, t_
+    # 2. the listed arithmetic causes
+    pre: list[dict[str, Any]] = [{"attributed": True} for _ in items]
+    for mode, want, field in (("wide", "scf-for-loop-range-folding", "wrap"), ("floormod", "lower-affine", "modonly")):
+        idx = [n for n, it in enumerate(items) if (want in it[1] if field == "wrap" else it[1][-1] == want and " mod " in it[0]["text"])]
+        res = eval_jobs([(items[n][0]["text"], items[n][1], items[n][0]["arg_types"], items[n][2]) for n in idx], mode)
+        for n, (k, s_, t_) in zip(idx, res):
+            pre[n][field] = s_.startswith("ok ") and s_ == t_
+    for it, pr in zip(items, pre):
+        report(ctx, *it, pre=pr)
 
 
 def deletions(lines: list[str]) -> list[tuple[int, int]]:
@@ -434,19 +522,27 @@ def shrink_program(text: str, passes: tuple[str, ...], arg_types: list[str], vec
     return "\n".join(lines)
 
 
-def report(ctx: core.Ctx, prog: dict[str, Any], passes: tuple[str, ...], vec: list[Any], kind: str, src: str, tgt: str) -> None:
+def report(ctx: core.Ctx, prog: dict[str, Any], passes: tuple[str, ...], vec: list[Any], kind: str, src: str, tgt: str,
+           pre: dict[str, Any] | None = None) -> None:
+    pre = pre or {}
     # attribute a pipeline failure to a single pass (alone on the source) or its first failing prefix
-    if len(passes) > 1:
+    if len(passes) > 1 and not pre.get("attributed"):
         for cand in [(p,) for p in passes] + [passes[:n] for n in range(2, len(passes))]:
             k, s, t = check_one(prog["text"], cand, prog["arg_types"], vec)
             if k is not None:
                 passes, kind, src, tgt = cand, k, s, t
                 break
     pre_site, pre_sig = classify(passes, prog["text"], kind)
-    wrap = passes[-1] == "scf-for-loop-range-folding" and only_wraparound(prog["text"], passes, prog["arg_types"], vec)
+    # 64-bit wrap-around of folded bounds: also when it only shows after a later pass of the pipeline (no single pass
+    # fails alone: `Sem` runs scf.for by its trip count, the lowered CFG wraps at `i + step`) — the folded bounds
+    # are range folding's, and the disagreement vanishes with a 128-bit index
+    RF = "scf-for-loop-range-folding"
+    wrap = RF in passes and (
+        pre["wrap"] if "wrap" in pre else only_wraparound(prog["text"], passes, prog["arg_types"], vec))
     if wrap:
-        pre_sig = WRAP_SIG
-    if passes[-1] == "lower-affine" and pre_sig.startswith("affine mod") and not only_mod_lowering(prog["text"], passes, prog["arg_types"], vec):
+        pre_site, pre_sig = SITE[RF], WRAP_SIG
+    if passes[-1] == "lower-affine" and pre_sig.startswith("affine mod") and not (
+            pre["modonly"] if "modonly" in pre else only_mod_lowering(prog["text"], passes, prog["arg_types"], vec)):
         pre_sig = "unexplained"
     if passes[-1] == "scf-for-loop-flatten" and flatten_explained(prog["text"], prog["arg_types"], vec) is False:
         pre_sig = "unexplained"
@@ -467,12 +563,13 @@ def report(ctx: core.Ctx, prog: dict[str, Any], passes: tuple[str, ...], vec: li
         if k3 is not None:
             text, s2, t2, k2 = cand, s3, t3, k3
     site, sig = classify(passes, text, k2)
-    if passes[-1] == "lower-affine" and sig.startswith("affine mod") and not only_mod_lowering(text, passes, prog["arg_types"], vec):
+    if passes[-1] == "lower-affine" and sig.startswith("affine mod") and not (
+            pre["modonly"] if text == prog["text"] and "modonly" in pre else only_mod_lowering(text, passes, prog["arg_types"], vec)):
         sig = k2.split(":")[0] + " (not explained by the mod lowering)"
     if passes[-1] == "scf-for-loop-flatten" and flatten_explained(text, prog["arg_types"], vec) is False:
         sig = k2.split(":")[0] + " (not explained by the known trip-count arithmetic)"
-    if passes[-1] == "scf-for-loop-range-folding" and (wrap if text == prog["text"] else only_wraparound(text, passes, prog["arg_types"], vec)):
-        sig = WRAP_SIG
+    if RF in passes and (wrap if text == prog["text"] else only_wraparound(text, passes, prog["arg_types"], vec)):
+        site, sig = SITE[RF], WRAP_SIG
     after = ""
     try:
         m, xctx = proggen.parse_module_ctx(text)
@@ -567,8 +664,73 @@ def families(tier: str) -> list[tuple[str, Any, list[tuple[str, ...]], int]]:
         ("affine", "affine", [("lower-affine",), ("lower-affine", "convert-scf-to-cf"), ("lower-affine", "licm")], 4),
         ("affine_bind", "affine_bind", [("lower-affine",), ("lower-affine", "convert-scf-to-cf")], 3),
         ("symref", "symref", [("frontend-desymrefy",)], 3),
-        ("symref_nested", "symref_nested", [("frontend-desymrefy",)], 1),
+        ("symref_nested", "symref_nested", [("frontend-desymrefy",)], 3),
     ]
+
+
+def validate_program(ctx: core.Ctx, batch: Batch, name: str, p: dict[str, Any], passlist: list[tuple[str, ...]],
+                     ingen: Any, nvec: int, sampled: set[str]) -> None:
+    """parse, apply every pass tuple of the family to a clone, queue source/target for the reference semantics"""
+    try:
+        m, xctx = proggen.parse_module_ctx(p["text"])
+        src = miniir.serialize(m)
+    except Exception as e:  # noqa: BLE001
+        ctx.count(f"generator_rejected.{name}.{core.exc_name(e)}")
+        return
+    ctx.programs += 1
+    ctx.count(f"programs.{name}")
+    # a family that needs particular inputs (distinct values, in-bounds indices) brings its own
+    vecs = p.get("vecs") or ingen.inputs(p["arg_types"], nvec)
+    for passes in passlist:
+        pname = "+".join(passes)
+        # symref programs: how many region levels lie between the declaring block and the deepest use
+        tag = (f"symref.{'declared' if p['sym_declared'] else 'undeclared'}.span{p['sym_span']}." if "sym_span" in p else None)
+        try:
+            m2 = apply_passes(m, xctx, passes)
+        except Rejected as e:
+            ctx.count(f"pass_rejected.{pname}.{e}")
+            if tag:
+                ctx.count(tag + "rejected")
+            continue
+        try:
+            m2.verify()
+            tgt = miniir.serialize(m2)
+        except Exception as e:  # noqa: BLE001
+            ctx.count(f"pass_output_invalid.{pname}.{core.exc_name(e)}")
+            report_invalid(ctx, p, passes, e)
+            continue
+        ctx.count(f"applied.{pname}")
+        if tag:
+            ctx.count(tag + "accepted")
+        if tgt != src:
+            ctx.count(f"changed.{pname}")
+            if name not in sampled:
+                sampled.add(name)
+                ctx.sample({"family": name, "passes": list(passes), "program": p["text"], "inputs": [list(map(repr, v)) for v in vecs[:2]]}, cap=10)
+        batch.add(p, passes, src, tgt, vecs, name)
+
+
+def symref_depth_programs(ctx: core.Ctx) -> list[dict[str, Any]]:
+    """The systematic symref family (proggen.symref_depth_program): one symbol touched d region levels
+    below the block that declares it.  quick: every carrier chain of length ≤ 2 (declaration in the
+    function body) with every access / continuation, and a seeded sample of the chains of length 1–4 with
+    the other declaration places; thorough: everything up to length 3 and a sample of length 4."""
+    r = ctx.rng
+    quick = ctx.tier == "quick"
+    cases = proggen.symref_depth_cases(2 if quick else 3)
+    if quick:
+        cases = [c for c in cases if c[3] == "body" and not c[4]]
+    for _ in range(120 if quick else 800):
+        d = r.choice([1, 2, 3, 3, 4]) if quick else 4
+        cases.append((tuple(r.choice(proggen.SYM_WRAPPERS) for _ in range(d)), r.choice(proggen.SYM_ACCESS),
+                      r.choice(proggen.SYM_AFTER), r.choice(proggen.SYM_DECL), d >= 2 and r.random() < 0.3))
+    seen: set[Any] = set()
+    out = []
+    for c in cases:
+        if c not in seen:
+            seen.add(c)
+            out.append(proggen.symref_depth_program(*c, trip=2 if len(c[0]) < 4 else 1))
+    return out
 
 
 def run_validation(ctx: core.Ctx, reserve_s: float) -> None:
@@ -590,44 +752,20 @@ def run_validation(ctx: core.Ctx, reserve_s: float) -> None:
     rounds = 14 if ctx.tier == "quick" else 400
     batch = Batch(ctx)
     sampled: set[str] = set()
+    # the enumerated family first: it does not depend on how many random rounds the budget allows
+    for p in symref_depth_programs(ctx):
+        if left() < reserve_s:
+            ctx.count("validation.symref_depth_cut_by_budget")
+            break
+        validate_program(ctx, batch, "symref_depth", p, [("frontend-desymrefy",)], ingen, nvec, sampled)
+    batch.flush()
     for rnd in range(rounds):
         if left() < reserve_s:
             ctx.count("validation.stopped_by_budget")
             break
         for name, cfg, passlist, weight in fams:
             for _ in range(weight):
-                p = gens[name].program()
-                try:
-                    m, xctx = proggen.parse_module_ctx(p["text"])
-                    src = miniir.serialize(m)
-                except Exception as e:  # noqa: BLE001
-                    ctx.count(f"generator_rejected.{name}.{core.exc_name(e)}")
-                    continue
-                ctx.programs += 1
-                ctx.count(f"programs.{name}")
-                # a family that needs particular inputs (distinct values, in-bounds indices) brings its own
-                vecs = p.get("vecs") or ingen.inputs(p["arg_types"], nvec)
-                for passes in passlist:
-                    pname = "+".join(passes)
-                    try:
-                        m2 = apply_passes(m, xctx, passes)
-                    except Rejected as e:
-                        ctx.count(f"pass_rejected.{pname}.{e}")
-                        continue
-                    try:
-                        m2.verify()
-                        tgt = miniir.serialize(m2)
-                    except Exception as e:  # noqa: BLE001
-                        ctx.count(f"pass_output_invalid.{pname}.{core.exc_name(e)}")
-                        report_invalid(ctx, p, passes, e)
-                        continue
-                    ctx.count(f"applied.{pname}")
-                    if tgt != src:
-                        ctx.count(f"changed.{pname}")
-                        if name not in sampled:
-                            sampled.add(name)
-                            ctx.sample({"family": name, "passes": list(passes), "program": p["text"], "inputs": [list(map(repr, v)) for v in vecs[:2]]}, cap=10)
-                    batch.add(p, passes, src, tgt, vecs, name)
+                validate_program(ctx, batch, name, gens[name].program(), passlist, ingen, nvec, sampled)
         batch.flush()
     batch.flush()
 
